@@ -457,8 +457,8 @@ class HistoryTrackerInterface(interfaces.Interface):
         dbi = self.getInterface("database")
         timeInYears = dbi.getHistory(self.r, ["time"])["time"]
 
-        # remove the time step info. Clients don't want it
-        timeInYears = [t[1] for t in timeInYears]
+        # remove the time step info (the keys of the history). Clients don't want it
+        timeInYears = [t for _timeStep, t in sorted(timeInYears.items())]
         if a:
             b = self._getBlockInAssembly(a)
             ids = dbi.getHistory(["id"])["id"]
